@@ -1171,6 +1171,10 @@ class AdaptiveGridArchive(Archive):
 
         self._contents = list(itertools.compress(self._contents, nondominated))
 
+        # dominated members were removed, rebuild the grid so density stays consistent
+        if not all(nondominated):
+            self.adapt_grid()
+
         # archive is empty, add the candidate
         if len(self) == 0:
             self._contents.append(solution)
